@@ -70,7 +70,7 @@ PROPS["C11"] = {
 }
 
 PROPS["C10"] = {
-    "suites": [("comp_num", "gen_render"), ("comp_num", "gen_parse")],
+    "suites": [("comp_num", "gen_render"), ("comp_num", "gen_parse"), ("comp_num", "gen_history")],
     "rule": "render: the resolution grid of %.3m on [-360,360] (thorough: the complete grids of %.3m %.5m %.6m, dense random sub-grids of %.8m %.9m), values half a unit around every "
             "field carry, (-1,0), +-1e9, printf formats %[flags][width][.prec]{d,f} (13 common + sampled combinations) x interesting and random values; parse: every string over "
             "'-+0159.:; ' up to length 4 (thorough 6), random strings of the 8-alternative grammar with all separators, signs, padding, and a list of hostile texts (non-ASCII digits, "
@@ -155,7 +155,7 @@ PROPS["C03"] = {
     "assumptions": ["carriage return and leading/trailing whitespace of text values are excluded (the property's own exclusions)"],
 }
 PROPS["C01"] = {
-    "suites": [("comp_sys", "gen_c01"), ("comp_sys", "gen_c01_lag"), ("comp_sys", "gen_c01_burst")],
+    "suites": [("comp_sys", "gen_c01"), ("comp_sys", "gen_c01_lag"), ("comp_sys", "gen_c01_burst"), ("comp_num", "gen_history")],
     "rule": "whole deployments in one process: 1-3 generated drivers (1-3 groups, all five vector kinds, all switch rules, printf and sexagesimal formats, initially enabled/disabled groups "
             "and vectors, one driver optionally built through an inheritance chain of depth 2-3) + real Router + real server TCP handlers + fragmenting byte pipes (1024 / 1 byte / random) + "
             "real client handlers + Client (control + BLOB connection) and in-process SnoopingClients; random histories of driver operations (assign, set_value, state, enabling of "
@@ -166,7 +166,7 @@ PROPS["C01"] = {
                     "a client that did not enable BLOBs is not sent setBLOBVector (protocol): of a BLOB property it is required to know the definition, not the updates"],
 }
 PROPS["C06"] = {
-    "suites": [("comp_sys", "gen_c06"), ("comp_sys", "gen_c06_pending")],
+    "suites": [("comp_sys", "gen_c06"), ("comp_sys", "gen_c06_pending"), ("comp_sys", "gen_c06_subsets")],
     "rule": "generated multi-device deployments (as for C01, every property enabled) x random (client, device, property, non-empty element subset) targets x values of the element's domain "
             "(texts with markup, quotes, non-ASCII, inner whitespace; numbers in plain decimal and sexagesimal notation with all three separators; both switch states; byte strings) x "
             "fragmentation {1024, 1, random}; before/after snapshots of EVERY driver judged by Spec.Sys.c06Holds, the writer's mirror by Spec.Sys.synced, the step by Sys.nextOk; values assigned, then traffic changing the same elements (driver, second client), then submit",
@@ -216,7 +216,8 @@ MANIFEST_TEXT = {
                 "oracle = Spec.expectedTrace / expectedTraceR computed in Lean from the history alone.",
         "note": "Trusted: Lean kernel + standard axioms; class flags from tools/extract.py; Driver.accepts modelled as `no name or same name`, catch-all as Proxy.accepts (tied by correspondence only); "
                 "re-entrant delivery (an endpoint sending from inside its handler, which every real driver does) is modelled separately (Model/RtrR.lean) with its own theorems (Properties/C05b.lean) and suite; "
-                "Driver.accepts is also regenerated from the source and proved equal to the model's (Properties/Decisions.lean: driverAccepts_agrees).",
+                "Driver.accepts and the router's per-device test (not the sender, accepts the name) are regenerated from the source on every run and proved equal to the model's (Properties/Dec/Router.lean: driverAccepts_agrees, routerToDevice_agrees); "
+                "router_process_from_source: the loop skeleton of process_message with the source's own three conditions plugged in computes exactly Rtr.process, for every state, message and sender.",
         "technique": "Lean 4 refinement proof (router state vs history function) + regenerated class flags + differential correspondence",
     },
     "C05": {
@@ -226,7 +227,7 @@ MANIFEST_TEXT = {
                 "assignments of the bounded universe x every device-originated kind, unregister/re-register, and random long histories; oracle = Spec.expectedTrace in Lean.",
         "note": "Trusted: Lean kernel + standard axioms; class flags and default policy from tools/extract.py; recording endpoints; the delivery condition itself is hand-modelled (deliverCond) "
                 "and proved equal to the specification table `allows` for all 6 cases; the condition in router.py and the class test behind is_blob are ALSO translated from the source on every run "
-                "(Generated/Decisions.lean) and proved equal to the model's on the whole domain (routerDeliver_agrees, routerIsBlob_agrees): a mutated operator or constant breaks a named theorem. "
+                "(Generated/Decisions.lean) and proved equal to the model's on the whole domain (Properties/Dec/Router.lean: routerDeliver_agrees, routerIsBlob_agrees, routerToClient_agrees, router_process_from_source - the skeleton of process_message with the source's conditions plugged in IS the model): a mutated operator or constant breaks a named theorem. "
                 "Re-entrant delivery: Properties/C05b.lean (procR_no_reactions, procR_deliveries_allowed, procR_isBlob_own, traceR_deliveries_allowed: whatever the nesting, every client delivery was decided "
                 "with the delivered message's own BLOB-ness and a policy that allows it).",
         "technique": "Lean 4 refinement proof (blob_routing vs history function) + differential correspondence",
@@ -238,7 +239,8 @@ MANIFEST_TEXT = {
                 "histories by induction (run_inv). The model (Switch.assignAt = apply_rule + store + publish) is tied to vectors.py/elements.py by an exhaustive transition-by-transition "
                 "correspondence on real Driver instances; oracle = Spec.Switch.holds evaluated in Lean on the observed before/snapshots/after.",
         "note": "The oracle also judges every state a Write/Change handler can observe during an operation, and writes refused by a vetoing Write handler (nothing may change). "
-                "Trusted: Lean kernel + standard axioms; the correspondence harness; only enabled vectors publish (disabled properties are C07's subject).",
+                "The five conditions of SwitchVector.apply_rule are translated from the source on every run (Generated/Decisions.lean) and switch_assign_from_source (Properties/Dec/Switch.lean) proves that the skeleton of an assignment with those conditions plugged in equals the model's assignAt for every rule, vector, element and value. "
+                "Every 4th case also runs with the library's loggers at DEBUG (ambient dimension). Trusted: Lean kernel + standard axioms; the correspondence harness; only enabled vectors publish (disabled properties are C07's subject).",
         "technique": "Lean 4 transition invariants + induction over operation sequences + exhaustive transition correspondence",
     },
     "C02": {
@@ -307,7 +309,8 @@ MANIFEST_TEXT = {
                 "veto => nothing stored/published; else stored, one update iff the property is enabled, Change handlers once with (old,new) iff changed, numerically for numbers, by content "
                 "for BLOBs). Correspondence on real drivers with instrumented handlers on an asyncio loop; oracle c14Holds in Lean.",
         "note": "Handlers that assign from inside a handler are judged per assignment by Spec.Dev.nestedHolds (oracle only: the driver model has no re-entrant handlers); handlers declared with @on on a "
-                "driver class instantiated several times are judged by call counts. Partial: task start order is asyncio's FIFO (observed, not proved); Read handlers are modelled by their refresh effect. "
+                "driver class instantiated several times are judged by call counts. Partial: task start order is asyncio's FIFO (observed, not proved); Read handlers are modelled by their refresh effect (a definition of a BLOB property reads no value: Dev.refreshDef) and "
+                "judged on the real drivers by what every published set* message shows for an element with a refreshing Read handler (all element kinds but numbers). "
                 "Trusted: Lean kernel + standard axioms; harness.",
         "technique": "Lean 4 trace-equality theorem against a contract generator + instrumented-handler correspondence",
     },
@@ -336,7 +339,8 @@ MANIFEST_TEXT = {
                 "c07Holds in Lean, the real parser's re-read compared by norm equality in Lean, and Spec.Dev.flagsHold: which groups and properties are enabled is what the driver's code last assigned - "
                 "a function of the operation history alone; flags_follow_history (Properties/C07b.lean) proves that the driver model satisfies that specification after EVERY operation sequence on EVERY device (raising operations and out-of-range addresses included).",
         "note": "C07_emitted_valid carries two extra hypotheses found by the proof attempt: stored and incoming BLOB values have a format string (values.BLOB(b, None) makes the driver emit a "
-                "oneBLOB its own parser rejects; recorded in DESIGN.md as usage outside the property). The XML character level is C03's subject. Trusted: kernel, translator, harness.",
+                "oneBLOB its own parser rejects; recorded in DESIGN.md as usage outside the property). The XML character level is C03's subject. Vector.enabled (own switch AND the group's) is translated from the source on every run and proved equal to the model's (Properties/Dec/Vector.lean). "
+                "Drivers are also built by subclassing (base class declaring the first groups, instantiated on its own first). Trusted: kernel, translator, harness.",
         "technique": "Lean 4 theorems over the driver model and the regenerated class table + differential correspondence with re-parse by the real library",
     },
     "C01": {
@@ -406,7 +410,10 @@ MANIFEST_TEXT = {
                 "no callback left after completion. C17_event_is_genuine / C17_timeout_is_genuine (never both, never neither). Correspondence: the real coroutine on a virtual-clock event loop "
                 "on every grid instant, all condition and event kinds, concurrent waits.",
         "note": "Partial: asyncio's Event/timer/task semantics are modelled (DESIGN.md section 5), tied by running the real coroutine on tools/vloop.py; independence of concurrent waits is "
-                "observed (each wait is compared with its own model run; the getProperties sent by several polling waits must be the merge of their own schedules), not proved.",
+                "observed (each wait is compared with its own model run; the getProperties sent by several polling waits must be the merge of their own schedules), not proved. "
+                "The four conditions of waitforevent (callback release, polling-loop guard, timeout guard, arming of the timeout task) are translated from the source on every run and "
+                "wait_deliver_from_source / wait_poll_from_source / wait_timeout_from_source (Properties/Dec/Wait.lean) prove that the three parts of the model are the source's skeletons with those conditions plugged in. "
+                "Waits are run both after an application callback was registered and as the client's very first registrations.",
         "technique": "Lean 4 invariant over instants (operational model = declarative spec) + virtual-clock correspondence",
     },
     "C18": {
